@@ -24,6 +24,14 @@ CHECKS = {
                 text='get_reachable_set_from, get_reversed_graph (once and twice), get_subgraph and clone run symbolically WITHOUT functional reduction on all digraphs with n<=5 (6 thorough) and all node subsets; solver proves equality with closure / flipped matrix / induced subgraph circuits and that the receiver is unchanged and shares no set object.',
                 note='bounded: n<=5/6; all nodes present, subsets may name one non-node; raw circuits decided by z3',
                 tech=SOLVER + ' (raw circuits, no simplifier)'),
+    'C14': dict(cat='model_checking', ref='4/C14',
+                text='Kripke.__init__, labels/next, clone and get_substructure executed symbolically with symbolic membership of S, R, S0, symbolic keys/values of L and a symbolic subset V over a 3-value universe (+1 never-a-state value): z3 proves "raises RuntimeError <=> some node has no successor", no other exception type, exact contents of the constructed/cloned/induced structure, label sets are copies, receiver unchanged. 80 forks x 2^15-2^16 argument combinations.',
+                note='bounded: universe of 3 (+1), one atom; /repo at fix commit 36a2c0d',
+                tech=SOLVER),
+    'C15': dict(cat='model_checking', ref='4/C15',
+                text='get_fair_states and CTL/CTLS.modelcheck(K,f,F) executed symbolically with symbolic fairness sets (|F|<=2) and compared by z3 with an Emerson-Lei fair-semantics oracle. Holds and is decided: get_fair_states is a subset of the fair states on every input; equality and modelcheck==fair semantics outside the classes of the four OPEN known findings D7-D10 (class predicates are conjoined negated to the violation query; each listed witness is re-found natively and printed as KNOWN-FINDING); F=[] and F=[S] equal the unconstrained answer; no exception and K unchanged also inside the classes.',
+                note='bounded: n<=3, |F|<=2, ~150 CTL formulas without constants; genuine defects D7-D10 are recorded, not repaired (reasons in known_findings.json / DESIGN.md section 5); /repo at fix commit 3d1a560',
+                tech=SOLVER),
 }
 ALL = ['C%02d' % i for i in range(1, 20)]
 NA = {}
